@@ -137,6 +137,61 @@ PATCHES = ['A remove n', 'A rename n m', 'A type n E', 'A type n float', 'A type
            'A remove', 'A rename', 'A rename a b c', 'A struct x', 'A struct', 'A type a', 'A nonsense a', 'B dynamic a b', 'A limited a zz', '\xff\xfe', 'A  type   a   u64  ']
 
 
+def audit_cases():
+    """inputs found by the audit of C13 (defects D95, D106-D112): (note, args, files)"""
+    outs = ['--python_out', '@D']
+    allouts = outs + ['--cpp_out', '@D', '--cpp_full_out', '@D']
+    XI = '<x xmlns:xi="http://www.w3.org/2001/XInclude">%s</x>'
+    cases = [
+        ('typedefs naming each other across an isar include, used in a constant', ['--isar'] + outs + ['@D/a.xml'],
+         {'b.xml': '<x><typedef name="Y" type="X"/></x>', 'a.xml': XI % '<xi:include href="b.xml"/><typedef name="X" type="Y"/><constant name="K" value="X+1"/>'}),
+        ('typedefs naming each other across an isar include, used in an array size', ['--isar', '--void_out', '@D/a.xml'],
+         {'b.xml': '<x><typedef name="Y" type="X"/></x>',
+          'a.xml': XI % '<xi:include href="b.xml"/><typedef name="X" type="Y"/><struct name="S"><member name="a" type="u8"><dimension size="X+1"/></member></struct>'}),
+        ('one typedef name twice, the second naming itself', ['--isar'] + outs + ['@D/a.xml'],
+         {'a.xml': '<x><typedef name="T" type="u32"/><typedef name="T" type="T"/><struct name="S"><member name="a" type="T"/></struct></x>'}),
+        ('patch renaming a typedef onto the type it names', ['--patch', '@D/p.txt'] + outs + ['@D/a.prophy'],
+         {'a.prophy': 'typedef u32 T; typedef T T2; struct S { T a; };', 'p.txt': 'T2 rename T\n'}),
+        ('self typedef used as a sizer', allouts + ['@D/a.prophy'], {'a.prophy': 'typedef T T; struct S { T n; u8 a<@n>; };'}),
+        ('mutual typedefs used as a sizer', allouts + ['@D/a.prophy'], {'a.prophy': 'typedef B A; typedef A B; struct S { A n; u8 a<@n>; };'}),
+        ('chain of 1200 typedefs used as a sizer', outs + ['@D/a.prophy'],
+         {'a.prophy': 'typedef u8 T0;\n' + ''.join('typedef T%d T%d;\n' % (i, i + 1) for i in range(1200)) + 'struct S { T1200 n; u8 a<@n>; };\n'}),
+        ('decimal literal of 5000 digits', allouts + ['@D/a.prophy'], {'a.prophy': 'const X = %s;' % ('9' * 5000)}),
+        ('hex literal of 4000 digits', allouts + ['@D/a.prophy'], {'a.prophy': 'enum E { E_A = 0x%s };' % ('f' * 4000)}),
+        ('array size of 5000 digits', allouts + ['@D/a.prophy'], {'a.prophy': 'struct S { u8 a[%s]; };' % ('1' * 5000)}),
+        ('isar constant of 5000 digits', ['--isar'] + outs + ['@D/a.xml'], {'a.xml': '<x><constant name="K" value="%s"/></x>' % ('7' * 5000)}),
+        ('isar dimension of 5000 digits', ['--isar'] + outs + ['@D/a.xml'],
+         {'a.xml': '<x><struct name="S"><member name="a" type="u8"><dimension size="%s"/></member></struct></x>' % ('7' * 5000)}),
+        ('patch insert with a huge index', ['--isar', '--patch', '@D/p.txt'] + outs + ['@D/a.xml'],
+         {'a.xml': '<x><struct name="A"><member name="n" type="u32"/></struct></x>', 'p.txt': 'A insert 99999999999999999999999999 k u8\n'}),
+        ('patch duplicating a member name, C++ full output', ['--patch', '@D/p.txt', '--cpp_full_out', '@D', '@D/a.prophy'],
+         {'a.prophy': 'struct In { u8 q; }; struct S { In x; u8 n; u16 d<@n>; };', 'p.txt': 'S insert 0 n In\n'}),
+        ('isar names holding a line break, schema output', ['--isar', '--prophy_out', '@D', '@D/a.xml'],
+         {'a.xml': '<x><struct name="A&#10;B" comment="c"><member name="a&#10;b" type="u8" comment="line&#10;line"/></struct></x>'}),
+        ('enumerators each naming the previous one twice (40)', ['--isar'] + allouts + ['@D/a.xml'],
+         {'a.xml': '<x><enum name="E"><enum-member name="A0" value="1"/>%s</enum></x>' % ''.join(
+             '<enum-member name="A%d" value="(A%d+A%d)/2+1"/>' % (i, i - 1, i - 1) for i in range(1, 40))}),
+    ]
+    chain = dict(('f%d.prophy' % i, ('#include "f%d.prophy"\n' % (i + 1) if i < 249 else '') + 'struct S%d { u8 a; };\n' % i) for i in range(250))
+    cases.append(('include chain of 250 files', outs + ['-I', '@D', '@D/f0.prophy'], chain))
+    xchain = dict(('f%d.xml' % i, XI % (('<xi:include href="f%d.xml"/>' % (i + 1) if i < 249 else '') + '<struct name="S%d"><member name="a" type="u8"/></struct>' % i))
+                  for i in range(250))
+    cases.append(('isar include chain of 250 files', ['--isar'] + outs + ['-I', '@D', '@D/f0.xml'], xchain))
+    diamond = {}
+    for i in range(24):
+        for side in 'lr':
+            inc = '' if i == 23 else '#include "l%d.prophy"\n#include "r%d.prophy"\n' % (i + 1, i + 1)
+            diamond['%s%d.prophy' % (side, i)] = inc + 'struct %s%d { u8 a; };\n' % (side.upper(), i)
+    cases.append(('diamond-shaped include graph, 24 levels (48 files)', outs + ['-I', '@D', '@D/l0.prophy'], diamond))
+    xdiamond = {}
+    for i in range(24):
+        for side in 'lr':
+            inc = '' if i == 23 else '<xi:include href="l%d.xml"/><xi:include href="r%d.xml"/>' % (i + 1, i + 1)
+            xdiamond['%s%d.xml' % (side, i)] = XI % (inc + '<struct name="%s%d"><member name="a" type="u8"/></struct>' % (side.upper(), i))
+    cases.append(('isar diamond-shaped include graph, 24 levels (48 files)', ['--isar'] + outs + ['-I', '@D', '@D/l0.xml'], xdiamond))
+    return cases
+
+
 def rewire(rng, sc):
     """structure-level corruption: point one type reference / array size / constant of an acyclic definition set at
     another definition (itself, a later one, an earlier one) - makes self references, longer cycles, or nothing"""
@@ -259,6 +314,8 @@ def run_c13(tier):
         os.makedirs(os.path.join(root, 'dirinc'), exist_ok=True)
         case('includes', outs + ['-I', '@D', '@D/a.prophy'], {'a.prophy': '#include "sub"\nstruct A { u8 a; };\n', 'sub/keep': ''}, 'include names a directory')
         case('includes', outs + ['@D/sub'], {'sub/keep': ''}, 'input is a directory')
+        for note, args, files in audit_cases():
+            case('audit', args, files, note)
         # structure-level corruptions: rewired references (self references, cycles) - also against the Lean model of the sort
         reqs, rows = [], []
         for si in range(chk.scale(150, 1500)):
